@@ -244,11 +244,13 @@ RoomToWrap(c, S) == WrapWidth(c, S) > WrapStart(c, S)
 \* multi-line arguments to single-line methods are the caller's error: as-is behaviour
 InContract(c, S) ==
   CASE c.op \in {"append", "write_line", "replace_current_line"} -> ~HasAny(c.t, {"|"})
-    [] c.op \in Wrapping -> RoomToWrap(c, S) /\ ~HasAny(c.p, {"|"})
-    [] c.op \in {"wrap_and_append", "append_wrapped_at_column"} -> FALSE
+    [] c.op \in Wrapping -> RoomToWrap(c, S) /\ ~HasAny(c.p, {"|"}) /\ ~HasAny(c.p \o c.t, {"~"})
+    [] c.op \in {"wrap_and_append", "append_wrapped_at_column"} -> FALSE      \* not used by the generator: as-is
+    [] c.op = "write_function_signature" -> c.a # <<>>      \* without arguments the code writes `name(self)`: as-is
     [] OTHER -> TRUE
-\* the greedy layout is claimed exactly when no tab stop / hyphenation rule is involved
-ExactLayout(c, S) == ~HasAny(Cur(S) \o c.p \o c.t, {"^", "-"})
+\* the greedy layout is claimed exactly when no tab stop / hyphenation rule is involved; U+2028 is a blank for the
+\* regular expressions of textwrap and for str.split, a character for str.translate: wrapping such text is not modelled
+ExactLayout(c, S) == ~HasAny(Cur(S) \o c.p \o c.t, {"^", "-", "~"})
 
 \* the part of the writer a call may write: everything after the lines completed before the call
 Region(S, R) == SubSeq(R.lines, Len(S.lines), Len(R.lines))
